@@ -238,7 +238,7 @@ func comparatorOK(c *Ctx, less *ssa.Function) (bool, string) {
 			}
 		}
 		v := rs[0].Results[0]
-		if call, ok := v.(*ssa.Call); ok && call.Call.StaticCallee() != nil && (call.Call.StaticCallee().String() == "strings.Compare" || call.Call.StaticCallee().String() == "cmp.Compare") {
+		if call, ok := v.(*ssa.Call); ok && call.Call.StaticCallee() != nil && isCompareFunc(call.Call.StaticCallee()) {
 			return sameFieldOfTwo(a, call.Call.Args[0], call.Call.Args[1])
 		}
 		b, ok := v.(*ssa.BinOp)
@@ -278,7 +278,7 @@ func lexComparator(c *Ctx, less *ssa.Function) ([]string, bool, string) {
 				}
 			case *ssa.Call:
 				sc := v.Call.StaticCallee()
-				if sc == nil || len(v.Call.Args) != 2 || (sc.String() != "strings.Compare" && sc.String() != "bytes.Compare" && sc.String() != "cmp.Compare") {
+				if sc == nil || len(v.Call.Args) != 2 || !isCompareFunc(sc) {
 					continue
 				}
 				x, y = v.Call.Args[0], v.Call.Args[1]
@@ -346,6 +346,12 @@ func sameFieldOfTwo(a *FnA, x, y ssa.Value) (bool, string) {
 	if _, isP := x.(*ssa.Parameter); isP {
 		if _, isQ := y.(*ssa.Parameter); isQ && x != y {
 			return true, "compares the two elements"
+		}
+	}
+	// the same field chain of two different element parameters (a comparator func(a, b T) int)
+	if px, cx := paramChain(x); px != nil {
+		if py, cy := paramChain(y); py != nil && px != py && cx == cy {
+			return true, "compares " + cx + " of the two elements"
 		}
 	}
 	return false, "comparator compares " + a.Desc(x) + " with " + a.Desc(y)
@@ -497,9 +503,7 @@ func ruleMapRange(c *Ctx) []Obligation {
 							sc := cc.StaticCallee()
 							if sc != nil {
 								pk := ""
-								if sc.Pkg != nil {
-									pk = sc.Pkg.Pkg.Path()
-								}
+								pk = pkgPathOf(sc)
 								n := sc.String()
 								if pureExternal[n] || purePkgs[pk] || recvMutExternal[n] || strings.HasPrefix(n, "(*bytes.Buffer).") {
 									continue
@@ -1224,7 +1228,7 @@ func comparedFields(c *Ctx, less *ssa.Function) (fields []string, identity bool)
 					}
 				}
 			case *ssa.Call:
-				if sc := v.Call.StaticCallee(); sc != nil && len(v.Call.Args) == 2 && (sc.String() == "strings.Compare" || sc.String() == "bytes.Compare" || sc.String() == "cmp.Compare") {
+				if sc := v.Call.StaticCallee(); sc != nil && len(v.Call.Args) == 2 && isCompareFunc(sc) {
 					note(v.Call.Args[0])
 				}
 			}
@@ -1273,6 +1277,10 @@ func ascendingNaturalOrder(c *Ctx, ci ssa.CallInstruction) (bool, string) {
 			if arg, _, ok := projectionCall(c, less, y); ok {
 				return side(arg, depth+1)
 			}
+		case *ssa.Alloc:
+			if p := allocParam(y); p != nil {
+				return side(p, depth+1)
+			}
 		}
 		return 0, false
 	}
@@ -1280,6 +1288,22 @@ func ascendingNaturalOrder(c *Ctx, ci ssa.CallInstruction) (bool, string) {
 	n := 0
 	for _, b := range less.Blocks {
 		for _, in := range b.Instrs {
+			// a three-way comparison cmp.Compare(x(a), x(b)) / strings.Compare(…): ascending iff the
+			// first operand is drawn from the first element
+			if call, ok := in.(*ssa.Call); ok {
+				if sc := call.Call.StaticCallee(); sc != nil && isCompareFunc(sc) && len(call.Call.Args) == 2 {
+					sx, okx := side(call.Call.Args[0], 0)
+					sy, oky := side(call.Call.Args[1], 0)
+					if !okx || !oky {
+						return false, "the comparator compares " + a.Desc(call.Call.Args[0]) + " with " + a.Desc(call.Call.Args[1]) + ", values computed from the elements rather than the elements themselves"
+					}
+					if !(sx == 0 && sy == 1) {
+						return false, "the comparator orders descending (" + baseFuncName(sc) + " of the second element against the first)"
+					}
+					n++
+				}
+				continue
+			}
 			bo, ok := in.(*ssa.BinOp)
 			if !ok {
 				continue
@@ -1459,4 +1483,65 @@ func (c *Ctx) isNullImpl(f *ssa.Function) bool {
 		}
 	}
 	return false
+}
+
+func isCompareFunc(f *ssa.Function) bool {
+	switch baseFuncName(f) {
+	case "strings.Compare", "bytes.Compare", "cmp.Compare":
+		return true
+	}
+	return false
+}
+
+// paramChain: v is a chain of field selections (and loads) on a parameter: the parameter and the
+// chain as text ("" for the parameter itself).
+func paramChain(v ssa.Value) (*ssa.Parameter, string) {
+	chain := ""
+	for v != nil {
+		switch x := v.(type) {
+		case *ssa.Parameter:
+			return x, chain
+		case *ssa.UnOp:
+			if x.Op != token.MUL {
+				return nil, ""
+			}
+			v = x.X
+		case *ssa.Field:
+			chain = "." + fieldName(x.X.Type(), x.Field) + chain
+			v = x.X
+		case *ssa.FieldAddr:
+			chain = "." + fieldName(x.X.Type(), x.Field) + chain
+			v = x.X
+		case *ssa.ChangeType:
+			v = x.X
+		case *ssa.Alloc:
+			// a struct parameter spilled to a local so that its fields can be addressed
+			if p := allocParam(x); p != nil {
+				return p, chain
+			}
+			return nil, ""
+		default:
+			return nil, ""
+		}
+	}
+	return nil, ""
+}
+
+// allocParam: the local holds a parameter of the function (stored once, at entry).
+func allocParam(al *ssa.Alloc) *ssa.Parameter {
+	if al.Referrers() == nil {
+		return nil
+	}
+	var p *ssa.Parameter
+	n := 0
+	for _, r := range *al.Referrers() {
+		if st, ok := r.(*ssa.Store); ok && st.Addr == ssa.Value(al) {
+			n++
+			p, _ = st.Val.(*ssa.Parameter)
+		}
+	}
+	if n == 1 {
+		return p
+	}
+	return nil
 }
